@@ -5,6 +5,7 @@ from ..graph import find_path, ret_class, ev_dominates, control_deps_transitive,
 from ..guard import Gates, var_of, zero_edges_of_call
 from .. import ser, df
 from .common import exceptions, consumed
+from . import chunks
 
 EXPL = ('Serializer/parser agreement (ordered (kind, width, field) sequences of jls_buf_wr_* vs jls_buf_rd_* in writer, reader and copy), '
         'byte order of the scalar serializers, reject-before-effect for duplicate / missing-source / invalid definitions, gates at every '
@@ -172,6 +173,47 @@ def r2(ctx, P):
                 ctx.ob('C13.2', bad is None, fname, '%s is decided before any write' % code, r.where(),
                        'no writing call precedes the rejection' if bad is None else '%s() at line %d can run before the definition is rejected' % (bad[0].callee, bad[0].ln),
                        bad[1].render() if bad else None)
+        # the persistent definition slot is written only after the identity checks
+        slot = '.signal_def' if 'signal' in fname else '.source_def'
+        slot_stores = []
+        for ev in f.events():
+            if ev.k in ('store', 'decl'):
+                lp_ = f.path(strip_casts(ev.store_parts()[0]))
+                if lp_ is not None and slot in tuple(lp_) and lp_.root_kind == 'param':
+                    slot_stores.append(ev)
+            elif ev.k == 'call':
+                for a_ in ev.args:
+                    a0 = strip_casts(a_)
+                    if a0.get('op') == 'un' and a0['o'] == '&':
+                        lp_ = f.path(a0)
+                        if lp_ is not None and slot in tuple(lp_) and lp_.root_kind == 'param':
+                            slot_stores.append(ev)
+        for code in checks:
+            cv = P.enum_consts[code]
+            for r in [r_ for r_ in f.returns() if r_.e is not None and const_of(strip_casts(r_.e)) == cv]:
+                bad = None
+                for st_ in slot_stores:
+                    w = find_path(f, st_, lambda e2, facts: 'target' if e2 is r else None)
+                    if w is not None:
+                        bad = (st_, w)
+                        break
+                ctx.ob('C13.2', bad is None, fname, '%s is decided before the definition slot is touched' % code, r.where(),
+                       'slot written only after the identity checks' if bad is None else
+                       'the in-memory definition of the id is overwritten at line %d before the call is rejected: a rejected duplicate changes what later data is stored as' % bad[0].ln,
+                       bad[1].render() if bad else None)
+        # the 'defined' marker (chunk_def.offset) is set only when the chunk is written next
+        for c_ in [c_ for c_ in chunks.constructors(P) if c_.fn is f and c_.obj.root_kind == 'param']:
+            def on_ev(e2, facts, c_=c_):
+                if any(e2 is w_ for w_ in c_.wr_calls):
+                    return 'stop'
+                if e2.k == 'ret':
+                    return 'target'
+                return None
+            w = find_path(f, c_.offset_store, on_ev)
+            ctx.ob('C13.2', w is None and bool(c_.wr_calls), fname, 'the defined-marker %s.offset is set only when the chunk is written' % c_.obj, c_.offset_store.where(),
+                   'every path from the marker passes jls_raw_wr' if (w is None and c_.wr_calls) else
+                   'a return is reachable after the id was marked as defined but before its chunk is written: a failed definition leaves the id usable / blocks a valid redefinition',
+                   w.render() if w else None)
         # every error return after the first write is an I/O propagation (not a constant parameter error)
         for r in f.returns():
             if r.e is None:
@@ -225,6 +267,11 @@ def r3(ctx, P):
                ('no validation gate' if not san else '%s() is reachable without the id having been validated' % first[0].callee),
                first[1].render() if first else None)
     ctx.floor('writer entries taking a signal id', n, 5)
+    gate_implies_defined(ctx, P, 'C13.3')
+
+
+def gate_implies_defined(ctx, P, rule):
+    from ..graph import find_path, ret_class
     # the gate rejects undefined ids: every zero return passes the equal edge of signal_def.signal_id == id and the non-zero edge of chunk_def.offset
     g = P.fn('jls_core_signal_validate')
     ctx.saw(g)
@@ -248,7 +295,7 @@ def r3(ctx, P):
             offset_edges.add((b.id, 'F' if neg else 'T'))
     for what, edges in (('signal_def.signal_id == id', defined_edges), ('chunk_def.offset != 0', offset_edges)):
         if not edges:
-            ctx.ob('C13.3', False, g.name, 'gate tests %s' % what, g.where(), 'test not found')
+            ctx.ob(rule, False, g.name, 'gate tests %s' % what, g.where(), 'test not found')
             continue
         w = find_path(g, 'entry', lambda ev, facts: 'target' if ev.k == 'ret' and ret_class(g, ev, facts) in ('zero', 'unknown') else None,
                       edge_ok=lambda b, s, label: (b.id, label) not in edges, refine=False)
@@ -258,7 +305,7 @@ def r3(ctx, P):
         if w is not None:
             ok = False
             detail = 'a zero return is reachable although %s does not hold' % what
-        ctx.ob('C13.3', ok, g.name, 'zero return implies %s' % what, g.where(), detail, w.render() if w else None)
+        ctx.ob(rule, ok, g.name, 'zero return implies %s' % what, g.where(), detail, w.render() if w else None)
 
 
 def r4(ctx, P):
